@@ -143,6 +143,78 @@ void gridCase(Ctx& ctx, const SeedDef& sd)
 	ctx.state(lgs.size() * hs.size()); ctx.trace();
 }
 
+// (2b) dimension fields whose product does not fit 32 bits, with exactly as many tile words in the file as the wrapped
+// product says (64-bit shift truncated, 32-bit shift with masked count, zero): a reader that sizes the tile array from a
+// wrapped count parses such a file to its end, so it must be refused on the dimension fields themselves
+void wrapGridCase(Ctx& ctx, bool saved)
+{
+	std::vector<int> z(mapc::kDims, 0);
+	std::vector<uint32_t> lgs; for (uint32_t i = 0; i <= 40; ++i) lgs.push_back(i);
+	for (uint32_t v : { 63u, 64u, 65u, 0x80000000u, 0xFFFFFFE0u, 0xFFFFFFFFu }) lgs.push_back(v);
+	std::vector<uint32_t> hs; for (int k = 0; k < 32; ++k) { hs.push_back(1u << k); hs.push_back((1u << k) + 1); hs.push_back((1u << k) + (1u << (k / 2))); }
+	for (uint32_t v : { 0u, 3u, 0x7FFFFFFFu, 0xFFFFFFFFu, 0x80000001u, 0xC0000000u }) hs.push_back(v);
+	std::size_t n = 0;
+	for (uint32_t lg : lgs) for (uint32_t h : hs) {
+		bool fits = lg < 32 && (uint64_t(h) << lg) <= 0xFFFFFFFFull;
+		if (fits) continue;
+		std::set<uint64_t> counts = { 0 };
+		if (lg < 64) counts.insert((uint64_t(h) << lg) & 0xFFFFFFFFull);
+		counts.insert(uint64_t(uint32_t(h << (lg & 31))));
+		counts.insert(uint64_t(h) & 0xFFFFFFFFull);
+		for (uint64_t c : counts) {
+			if (c > 2048) continue;
+			ref::RMap m = mapc::makeMap(z);
+			m.lgWidth = lg; m.height = h; m.tiles.assign(std::size_t(c), 0x12345678u);
+			std::vector<uint8_t> b = saved ? ref::encodeSavedGame(m, ref::RSavedUnits()) : ref::encodeMap(m);
+			std::string key = std::string(saved ? "saved game" : "map") + " lgWidth=" + std::to_string(lg) + " & height=" + std::to_string(h) + " with " + std::to_string(c) + " tile words in the file (wrapped product)";
+			ctx.sub(key);
+			std::unique_ptr<uint8_t[]> buf(new uint8_t[b.size()]);
+			std::memcpy(buf.get(), b.data(), b.size());
+			Map mm;
+			SeedDef sd; sd.saved = saved;
+			auto o = parse(sd, buf.get(), b.size(), mm);
+			ctx.transition(); ++n;
+			ctx.count("grid/wrap-consistent-files");
+			if (o.cls == 'X') { ctx.violation("C07/grid/non-std-exception", key, ""); continue; }
+			if (o.cls == 'R') {
+				ctx.count("grid/accepted");
+				if (judgeReturned(ctx, mm, key, "grid")) ctx.violation("C07/grid/unrepresentable-dimensions-accepted", key, "width " + std::to_string(mm.WidthInTiles()) + " height " + std::to_string(mm.HeightInTiles()) + " tiles " + std::to_string(mm.tiles.size()));
+			}
+		}
+	}
+	ctx.state(n); ctx.trace();
+}
+
+// (2c) saved games whose unit table really has records of the size the sizeOfUnit field names (with no units the field
+// is not pinned to 120), followed by plenty of data: a reader that trusts the field for the fixed unit table writes
+// outside it (ASan); every outcome must be an ordinary error or a map
+void unitSizeCase(Ctx& ctx)
+{
+	std::vector<int> z(mapc::kDims, 0);
+	std::size_t n = 0;
+	for (uint32_t count : { 0u, 1u, 3u }) for (uint32_t s : { 0u, 1u, 7u, 119u, 120u, 121u, 124u, 125u, 128u, 136u, 152u, 240u, 0x10000u, 0x80000000u, 0xFFFFFFFFu }) for (int table = 0; table < 2; ++table) for (int freeList = 0; freeList < 2; ++freeList) {
+		ref::RMap m = mapc::makeMap(z);
+		ref::RSavedUnits u; u.unitCount = count; u.sizeOfUnit = s; if (freeList) { u.firstFree = 1; u.nextFree = 2; }
+		u.tableRecordBytes = table == 0 ? 120 : (s <= 240 ? s : 120);
+		m.trailing.assign(96 * 1024, 0x5C);
+		std::vector<uint8_t> b = ref::encodeSavedGame(m, u);
+		b.insert(b.end(), 96 * 1024, 0x5C);
+		std::string key = "saved game unitCount=" + std::to_string(count) + " sizeOfUnit=" + std::to_string(s) + " table of " + std::to_string(u.tableRecordBytes) + "-byte records" + (freeList ? " + free list" : "") + " + 96 KiB of further data";
+		ctx.sub(key);
+		std::unique_ptr<uint8_t[]> buf(new uint8_t[b.size()]);
+		std::memcpy(buf.get(), b.data(), b.size());
+		Map mm;
+		SeedDef sd; sd.saved = true;
+		auto o = parse(sd, buf.get(), b.size(), mm);
+		ctx.transition(); ++n;
+		ctx.count("units/record-size-files");
+		if (o.cls == 'X') { ctx.violation("C07/units/non-std-exception", key, ""); continue; }
+		if (o.cls == 'R') { ctx.count("units/accepted"); judgeReturned(ctx, mm, key, "units"); }
+		else ctx.count("units/refused");
+	}
+	ctx.state(n); ctx.trace();
+}
+
 // ---- (3) saved game == map ----
 void equivalenceCase(Ctx& ctx, std::size_t part, std::size_t parts)
 {
@@ -203,6 +275,9 @@ void build(Ctx& ctx)
 	}
 	gCases.push_back({ 2, 0, 0, 0 });
 	gCases.push_back({ 2, 5, 0, 0 });
+	gCases.push_back({ 4, 0, 0, 0 });
+	gCases.push_back({ 4, 0, 1, 0 });
+	gCases.push_back({ 5, 0, 0, 0 });
 	for (std::size_t p = 0; p < 8; ++p) gCases.push_back({ 3, 0, p, 8 });
 }
 
@@ -213,6 +288,8 @@ void runCase(std::size_t i, Ctx& ctx)
 	case 0: prefixCase(ctx, gSeeds[c.seed], c.from, c.to); if (c.seed == 5 && c.from == 0) ctx.sample("saved game " + gSeeds[5].name + ": every proper prefix 0.." + std::to_string(gSeeds[5].bytes.size() - 1) + " presented through a reader whose tail is poisoned; each must be rejected"); break;
 	case 1: faultCase(ctx, gSeeds[c.seed], *gSpaces[c.seed], c.from, c.to); if (c.seed == 2 && c.from == 0) ctx.sample(gSpaces[2]->get(30).desc + " -> reader must fail or return a map with width*height tiles"); break;
 	case 2: gridCase(ctx, gSeeds[c.seed]); break;
+	case 4: wrapGridCase(ctx, c.from != 0); break;
+	case 5: unitSizeCase(ctx); break;
 	default: equivalenceCase(ctx, c.from, c.to);
 	}
 }
@@ -226,7 +303,7 @@ int main(int argc, char** argv)
 	def.init = build;
 	def.ncases = [](Ctx&) { return gCases.size(); };
 	def.run = runCase;
-	def.describe = [](std::size_t i) { const auto& c = gCases[i]; return std::string(c.kind == 0 ? "prefixes " : c.kind == 1 ? "faults " : c.kind == 2 ? "grid " : "equivalence ") + (c.kind < 3 ? gSeeds[c.seed].name : "") + " " + std::to_string(c.from) + ".." + std::to_string(c.to); };
+	def.describe = [](std::size_t i) { const auto& c = gCases[i]; return std::string(c.kind == 0 ? "prefixes " : c.kind == 1 ? "faults " : c.kind == 2 ? "grid " : c.kind == 4 ? "wrap-consistent grid " : c.kind == 5 ? "unit record sizes " : "equivalence ") + (c.kind < 3 ? gSeeds[c.seed].name : "") + " " + std::to_string(c.from) + ".." + std::to_string(c.to); };
 	def.caseTimeoutS = 300;
 	return mc::Main(argc, argv, def);
 }
